@@ -145,10 +145,15 @@ def run(ctx):
         base = dict(random_seed=seed0, ticks_per_second=rng.choice([1, 10, 100]),
                     waiting_seconds_mean=rng.choice([0.5, 2.0, 5.0]), num_pipelines=rng.choice([1, 3, 4]),
                     num_operators=rng.choice([1, 3, 5]), cpu_io_ratio=rng.choice([0.0, 0.5, 1.0]))
+        if i == 4:
+            # a seed whose stream contains an operator-count draw below zero (the rare clamp branch), at tick 121
+            base = dict(random_seed=30, ticks_per_second=1000, waiting_seconds_mean=0.01, num_pipelines=4, num_operators=8)
         other = dict(base, scheduler_algo=rng.choice(['naive', 'priority-pool', 'overbook']), num_pools=rng.choice([1, 2, 5]),
                      cpus_per_pool=rng.choice([1, 8]), ram_gb_per_pool=rng.choice([4, 64]), duration=rng.choice([1, 77]),
                      multi_operator_containers=False, allow_memory_overcommit=True)
         nt = int(min(12000, max(60, 25 * base['waiting_seconds_mean'] * base['ticks_per_second'])))
+        if i == 4:
+            nt = 400
         return gen_hits(base, other, nt)
     # run_simulator itself (real generator, statistics as returned): alone in a fresh process vs. after runs with
     # OTHER parameters (another tick rate, another scheduler) in the same process
